@@ -8,12 +8,16 @@ from vlib.case import Outcome
 from vlib.gen import crystals as gx
 from vlib.oracles import spgref
 
-TOL = 1e-3      # symmetry tolerance MatID is run with (the well-conditioned filter brackets it by 10x on either side)
+TOL = 1e-3      # symmetry tolerance MatID is run with in the "tight" mode (the well-conditioned filter brackets it by 10x on either side)
+DEFAULT_TOL = 0.4       # matid.constants.SYMMETRY_TOL: what a user who passes nothing gets ("default" mode, one case in five)
+DEFAULT_SCALE = 5.0     # in the default mode the (exact) crystal is enlarged 5x: shortest distance >= 5 A, so 0.4 A is < 8 % of it
 
 FILTER_ASSUMPTIONS = [
     "samples whose spglib group differs between symprec 1e-4 and 1e-2 are discarded and counted (ill-conditioned); MatID runs at 1e-3",
     "samples with raw shortest distance < 0.5 A are discarded and counted; 0.5-1 A are rescaled (<= x2); cells are scaled to >= 12 A^3 per atom",
     "permutation / unwrapping presentations are deterministic functions of a Hypothesis-drawn 32-bit integer (numpy RandomState), recorded in the descriptor",
+    "one crystal in five (by descriptor hash) is analysed at MatID's DEFAULT tolerance (0.4 A, nothing passed) after enlarging the exact crystal 5x; such a sample is kept only if spglib "
+    "finds the same group at 0.04 A and 1.2 A as at the tight tolerance and standardises it identically (lattice, positions, letters, origin shift) at 0.4 A and at the tight tolerance (else discarded and counted); independent spglib oracles always run at 1e-3 x the length scale",
 ]
 
 
@@ -40,12 +44,38 @@ def prepare(desc, out):
         out.discard = status
         return None
     c = Ctx()
+    from vlib.case import dhash
+    c.mode = "default" if int(dhash(desc["crystal"]), 16) % 5 == 0 else "tight"
+    c.scale = DEFAULT_SCALE if c.mode == "default" else 1.0
+    cell = np.asarray(cell, float) * c.scale
+    c.tol = DEFAULT_TOL if c.mode == "default" else TOL        # what MatID works with
+    c.otol = TOL * c.scale                                      # what the independent spglib oracles are run with
     c.std = (cell, frac @ cell, nums)
-    c.cell, c.pos, c.nums = gx.apply_presentation(cell, frac, nums, desc["pres"])
-    c.ds = gx.well_conditioned(c.cell, c.pos, c.nums)
+    pres = desc["pres"]
+    if c.scale != 1.0 and pres.get("trans") is not None:
+        pres = dict(pres)
+    c.cell, c.pos, c.nums = gx.apply_presentation(cell, frac, nums, pres)
+    c.ds = gx.well_conditioned(c.cell, c.pos, c.nums, c.scale, also=(0.1 * DEFAULT_TOL, 3 * DEFAULT_TOL) if c.mode == "default" else ())
     if c.ds is None:
-        out.discard = "ill-conditioned"
+        out.discard = "ill-conditioned" if c.mode == "tight" else "ill-conditioned-at-default-tolerance"
         return None
+    if c.mode == "default":
+        # spglib itself must standardise this crystal identically at the default tolerance and at the tight one (at 0.4 A its
+        # idealisation sometimes fails - "ssm_get_exact_positions failed" - and hands back another structure): only then is a
+        # difference MatID's doing
+        dl = gx.spglib_group(c.cell, c.pos, c.nums, DEFAULT_TOL)
+        same = (dl is not None and len(dl.std_types) == len(c.ds.std_types) and np.array_equal(dl.std_types, c.ds.std_types)
+                and list(dl.wyckoffs) == list(c.ds.wyckoffs) and int(dl.hall_number) == int(c.ds.hall_number)
+                and np.allclose(dl.std_lattice, c.ds.std_lattice, rtol=0, atol=1e-6 * c.scale)
+                and np.allclose(dl.transformation_matrix, c.ds.transformation_matrix, atol=1e-6)
+                and np.abs(spgref.wrapd(np.asarray(dl.origin_shift) - np.asarray(c.ds.origin_shift))).max() < 1e-6
+                and np.abs(spgref.wrapd(np.asarray(dl.std_positions) - np.asarray(c.ds.std_positions))).max() < 1e-6)
+        if not same:
+            out.discard = "spglib-standardisation-tolerance-dependent"
+            return None
+    out.cls("tolerance=" + c.mode)
+    if desc["crystal"].get("pseudo"):
+        out.cls("metric-pseudo-symmetry")
     c.at = gx.make_atoms(c.cell, c.pos, c.nums)
     c.sg = int(c.ds.number)
     out.cls(*gx.pres_labels(desc["pres"]))
@@ -72,6 +102,13 @@ def pattern_strategy(item):
         "pres": gx.presentations()})
 
 
+def new_analyzer(c, atoms=None):
+    """SymmetryAnalyzer on the case's crystal at the case's tolerance (default mode: nothing is passed, as a user would)"""
+    from matid.symmetry import SymmetryAnalyzer
+    atoms = c.at if atoms is None else atoms
+    return SymmetryAnalyzer(atoms) if c.mode == "default" else SymmetryAnalyzer(atoms, symmetry_tol=TOL)
+
+
 def frac_of(atoms):
     return np.linalg.solve(np.asarray(atoms.get_cell()).T, atoms.get_positions().T).T
 
@@ -94,9 +131,9 @@ def analyzer_for(c, desc, out):
     h = int(dhash(desc), 16)
     if h % 4 != 0:
         out.cls("analyser:fresh")
-        return SymmetryAnalyzer(c.at, symmetry_tol=TOL)
+        return new_analyzer(c)
     live = bulk("NaCl", "rocksalt", a=5.64, cubic=True) if (h >> 3) % 2 else bulk("Te", "hcp", a=4.45, c=5.93)
-    an = SymmetryAnalyzer(live, symmetry_tol=TOL)
+    an = new_analyzer(c, live)
     an.get_conventional_system()
     an.get_wyckoff_sets_conventional(False)
     if (h >> 2) % 2:
